@@ -2,6 +2,7 @@ package rules
 
 import (
 	"go/ast"
+	"go/constant"
 	"go/token"
 	"go/types"
 	"strings"
@@ -217,7 +218,7 @@ func errorChecksMeanWhatTheySay(r *Report, p *Program, rule string, only ...func
 					straight := func(pts []engine.Point, want func(rt *ssa.Return) bool) bool {
 						return engine.Query{Fn: f, From: pts, CutInstr: func(x ssa.Instruction) bool { return x == ssa.Instruction(call) },
 							CutEdge: func(bb *ssa.BasicBlock, i int, l *Lit) bool { return l != nil },
-							Target: func(x ssa.Instruction) bool { rt, isR := x.(*ssa.Return); return isR && want(rt) }}.Find() != nil
+							Target:  func(x ssa.Instruction) bool { rt, isR := x.(*ssa.Return); return isR && want(rt) }}.Find() != nil
 					}
 					freshErr := func(rt *ssa.Return) bool { return engine.ReturnsFreshError(rt) }
 					anyErrOrHandled := func(rt *ssa.Return) bool { return isErrReturn(rt) }
@@ -1035,4 +1036,86 @@ func blankErrorLHS(f *ssa.Function, call *ssa.Call) bool {
 		return false
 	})
 	return blank
+}
+
+// constantSlicesBounded: s[:N] / s[M:N] with a constant upper bound N on a string or slice whose length is not a
+// constant is reached only across a test that establishes len(s) ≥ N (a slice bounds panic in a worker or in
+// a reconciler takes the whole process down).
+func constantSlicesBounded(r *Report, p *Program, rule string, floor int) {
+	r.Rule(rule, "a constant-bound slice expression s[:N] is dominated by a comparison establishing len(s) ≥ N")
+	ord := map[string]int{}
+	for _, f := range p.Scanned {
+		k := FK(f)
+		if !strings.HasPrefix(k, engine.ModPrefix) || strings.Contains(k, "/pkg/client/generated") || strings.Contains(k, "zzmcvetcontrols") || strings.Contains(k, "/pkg/apis/") {
+			continue
+		}
+		for _, b := range f.Blocks {
+			for _, in := range b.Instrs {
+				sl, isSl := in.(*ssa.Slice)
+				if !isSl || sl.High == nil {
+					continue
+				}
+				hc, isC := sl.High.(*ssa.Const)
+				if !isC || hc.Value == nil || hc.Value.Kind() != constant.Int {
+					continue
+				}
+				n, _ := constant.Int64Val(hc.Value)
+				if n <= 0 {
+					continue
+				}
+				if pt, isP := sl.X.Type().Underlying().(*types.Pointer); isP {
+					if _, isArr := pt.Elem().Underlying().(*types.Array); isArr {
+						continue // array: length known to the compiler
+					}
+				}
+				if _, isConstX := sl.X.(*ssa.Const); isConstX {
+					continue
+				}
+				key := Short(k) + "→slice(" + E(sl.X) + ")[:" + hc.Value.String() + "]"
+				c := sf("%s#%d", key, ord[key])
+				ord[key]++
+				lenOf := func(v ssa.Value) bool {
+					cl, isCall := v.(*ssa.Call)
+					return isCall && engine.CallKey(cl.Common()) == "builtin.len" && len(cl.Common().Args) == 1 && engine.SameValue(cl.Common().Args[0], sl.X)
+				}
+				w := unguarded(f, nil, in, func(l Lit) bool {
+					if l.X == nil || l.Y == nil {
+						return false
+					}
+					var lower int64 = -1
+					cx, xConst := l.X.(*ssa.Const)
+					cy, yConst := l.Y.(*ssa.Const)
+					switch {
+					case xConst && cx.Value != nil && cx.Value.Kind() == constant.Int && lenOf(l.Y): // a OP len
+						a, _ := constant.Int64Val(cx.Value)
+						switch {
+						case l.Op == token.LSS && l.Pos:
+							lower = a + 1
+						case l.Op == token.LEQ && l.Pos:
+							lower = a
+						case l.Op == token.GTR && !l.Pos: // !(a > len) ⇒ len ≥ a
+							lower = a
+						case l.Op == token.GEQ && !l.Pos: // !(a ≥ len) ⇒ len > a
+							lower = a + 1
+						}
+					case yConst && cy.Value != nil && cy.Value.Kind() == constant.Int && lenOf(l.X): // len OP a
+						a, _ := constant.Int64Val(cy.Value)
+						switch {
+						case l.Op == token.GTR && l.Pos:
+							lower = a + 1
+						case l.Op == token.GEQ && l.Pos:
+							lower = a
+						case l.Op == token.LSS && !l.Pos:
+							lower = a
+						case l.Op == token.LEQ && !l.Pos:
+							lower = a + 1
+						}
+					}
+					return lower >= n
+				})
+				r.Check(rule, c, p.InstrPos(in), w == nil, "length established before slicing", sf("%s[:%d] is reached on a path that has not established len ≥ %d: shorter values panic (slice bounds out of range)", E(sl.X), n, n))
+			}
+		}
+	}
+	r.Floor(rule, floor)
 }
